@@ -208,6 +208,7 @@ ContentSmall == { << >>,
 OffGeo    == {Unset, 0, 1, 2, 3, 5}
 OffMid    == {Unset, 0, 2, 3, 4}
 OffSmall  == {Unset, 0, 2, 3}
+OffTiny   == {Unset, 0, 2}
 OwNone    == {Unset}
 OwSmall   == {Unset, 0, 1, 4}
 
